@@ -158,6 +158,11 @@ func (x *X) account(w *vsim.World) {
 	for i := 0; i < vsim.NProbes; i++ {
 		s.Probes[vsim.ProbeNames[i]] += w.Probes[i]
 	}
+	for i, n := range w.OpCount {
+		if n > 0 && i < len(vsim.OpNames) {
+			s.Counters["op_"+vsim.OpNames[i]] += n
+		}
+	}
 	for _, st := range w.SiteStats() {
 		v := s.Sites[st.Name]
 		v[0] += int64(st.Hits)
